@@ -39,24 +39,37 @@ type Doc struct {
 }
 type Item struct {
 	Key string `@Ident "="`
-	Val *Val   `@@ ";"`
+	Val Val    `@@ ";"`
 }
-type Val struct {
-	Pair  *Pair    `  @@`
-	Num   string   `| @Int`
-	Here  []string `| ( HereOpen | Alt ) @HereText* HereEnd`
-	Ident string   `| @Ident`
-}
+
+// Val is a union (sealed interface) so that the grammar also has a union production.
+type Val interface{ val() }
+
 type Pair struct {
 	A string `@Ident`
 	B string `@Ident "!"`
 }
+type Num struct {
+	Num string `@Int`
+}
+type Here struct {
+	Here []string `( HereOpen | Alt ) @HereText* HereEnd`
+}
+type Word struct {
+	Ident string `@Ident`
+}
+
+func (Pair) val() {}
+func (Num) val()  {}
+func (Here) val() {}
+func (Word) val() {}
 
 func NewDef() *lexer.StatefulDefinition { return lexer.MustStateful(HeredocRules()) }
 
 func NewParser() *participle.Parser[Doc] {
 	return participle.MustBuild[Doc](
 		participle.Lexer(NewDef()),
+		participle.Union[Val](Pair{}, Num{}, Here{}, Word{}),
 		participle.Elide("Space"),
 		participle.UseLookahead(2),
 		participle.Upper("Ident"),
@@ -123,6 +136,22 @@ func Scenarios() []Scenario {
 		{"S2a parser: success || failure", newParser, []Call{parseCall("A", InA), parseCall("Bad", InBad)}},
 		{"S2b parser: success || String()", newParser, []Call{parseCall("A", InA), {"String()", func(s any) string { return s.(*participle.Parser[Doc]).String() }}}},
 		{"S2c parser: success || success || lex error", newParser, []Call{parseCall("A", InA), parseCall("B", InB), parseCall("Lex", InLex)}},
+		{"S2d parser: AllowTrailing || strict || Trace", newParser, []Call{
+			{"ParseString(trailing, AllowTrailing)", func(s any) string {
+				return render(s.(*participle.Parser[Doc]).ParseString("f", "a = 1; ; ;", participle.AllowTrailing(true)))
+			}},
+			{"ParseString(trailing, strict)", func(s any) string { return render(s.(*participle.Parser[Doc]).ParseString("f", "a = 1; ; ;")) }},
+			{"ParseString(B, Trace)", func(s any) string {
+				var sb strings.Builder
+				r := render(s.(*participle.Parser[Doc]).ParseString("f", InB, participle.Trace(&sb)))
+				return fmt.Sprintf("%s | trace bytes %d", r, sb.Len())
+			}},
+		}},
+		{"S2e parser: String() || String() || failing parse", newParser, []Call{
+			{"String()", func(s any) string { return s.(*participle.Parser[Doc]).String() }},
+			{"String() again", func(s any) string { return s.(*participle.Parser[Doc]).String() }},
+			parseCall("Bad", InBad),
+		}},
 		{"S3 ebnf package-level parser", func() any { return nil }, []Call{
 			{"ebnf(1)", func(any) string { return render(ebnf.ParseString(`A = "a" | B . B = ( "b" C )* .`)) }},
 			{"ebnf(2)", func(any) string { return render(ebnf.ParseString(`X = ~"x" (?= Y ) Z+ . `)) }},
@@ -144,6 +173,15 @@ func HistoryCalls() []Call {
 		{"String()", func(s any) string { return s.(*participle.Parser[Doc]).String() }},
 		{"Lex(A)", func(s any) string { return render(s.(*participle.Parser[Doc]).Lex("f", strings.NewReader(InA))) }},
 		{"ParseBytes(empty)", func(s any) string { return render(s.(*participle.Parser[Doc]).ParseBytes("", nil)) }},
+		{"ParseString(trailing garbage)", func(s any) string { return render(s.(*participle.Parser[Doc]).ParseString("f", "a = 1; ; ;")) }},
+		{"ParseString(trailing garbage, AllowTrailing)", func(s any) string {
+			return render(s.(*participle.Parser[Doc]).ParseString("f", "a = 1; ; ;", participle.AllowTrailing(true)))
+		}},
+		{"ParseString(A, Trace)", func(s any) string {
+			var sb strings.Builder
+			r := render(s.(*participle.Parser[Doc]).ParseString("f", InA, participle.Trace(&sb)))
+			return fmt.Sprintf("%s | trace bytes %d", r, sb.Len())
+		}},
 	}
 }
 
